@@ -9,15 +9,18 @@ Local Open Scope list_scope.
 (* the per-item components of the class predicates *)
 Definition it_skip_text (it : item) : bool := negb (has_skip it) && existsb group_skip_text (it_attrs it).
 Definition it_skip_beside (it : item) : bool := has_skip it && negb (existsb group_skip_seen (it_attrs it)).
-Definition it_escape (it : item) : bool := match rename_of it with Some v => needs_escape v | None => false end.
+Definition it_escape (it : item) : bool := match head_rename (concat (it_attrs it)) with Some v => needs_escape v | None => false end.
 Definition it_rename_text (it : item) : bool :=
-  existsb (fun m => match m with MRename _ => false | _ => contains (L "rename") (meta_text m) end) (concat (it_attrs it)).
+  existsb (fun m => negb (is_rename m) && contains (L "rename") (meta_text m)) (concat (it_attrs it)).
+Definition it_sd (it : item) : bool := existsb (fun m => match m with MRenameP l => sd_bad l | _ => false end) (concat (it_attrs it)).
 
-Lemma item_rename_ok it : item_ok it = true -> it_escape it = false -> it_rename_text it = false ->
+Lemma item_rename_ok it : item_ok it = true -> it_escape it = false -> it_rename_text it = false -> it_sd it = false ->
   fst (field_attrs (map group_string (it_attrs it))) = rename_of it.
-Proof. intros Hok He Hr. unfold item_ok in Hok. apply andb_true_iff in Hok as [Hok Hc]. apply Nat.leb_le in Hc.
-  apply item_rename; [| |exact Hc].
-  - intros m Hm Hnr. pose proof (existsb_false_in _ _ Hr m Hm) as H. destruct m; [discriminate|exact H|exact H].
+Proof. intros Hok He Hr Hsd. unfold item_ok in Hok. apply andb_true_iff in Hok as [Hok Hc]. apply Nat.leb_le in Hc.
+  apply andb_true_iff in Hok as [_ Hoth].
+  rewrite item_rename; [| exact Hoth | | |exact Hc].
+  - unfold rename_of. apply head_rename_is_first; [exact Hoth|]. intros l Hl. exact (existsb_false_in _ _ Hsd (MRenameP l) Hl).
+  - intros m Hm Hnr. pose proof (existsb_false_in _ _ Hr m Hm) as H. cbn beta in H. rewrite Hnr in H. exact H.
   - intros v Hv. unfold it_escape in He. rewrite Hv in He. exact He. Qed.
 
 Lemma default_is_snake : default_case default_field_case = RSnake.
@@ -47,21 +50,21 @@ Proof. intros Hok Hcfg Hs. destruct k; cbn [is_struct] in *; [apply name_field; 
 Lemma emit_ok dfc k ra items :
   forallb item_ok items = true ->
   existsb it_skip_text items = false -> existsb it_skip_beside items = false ->
-  existsb it_escape items = false -> existsb it_rename_text items = false ->
+  existsb it_escape items = false -> existsb it_rename_text items = false -> existsb it_sd items = false ->
   (is_struct k = true -> ra = None -> existsb (cfg_differs dfc) items = false) ->
   emit_raw k dfc ra (map item_raw items)
   = map (wire_name k ra) (filter (fun it => negb (has_skip it)) items).
-Proof. induction items as [|it items IH]; intros Hok H2 H3 H4 H5 H7; [reflexivity|].
+Proof. induction items as [|it items IH]; intros Hok H2 H3 H4 H5 H8 H7; [reflexivity|].
   cbn [forallb] in Hok. apply andb_true_iff in Hok as [Hit Hok].
-  cbn [existsb] in H2, H3, H4, H5.
+  cbn [existsb] in H2, H3, H4, H5, H8.
   apply orb_false_iff in H2 as [A2 H2]. apply orb_false_iff in H3 as [A3 H3].
-  apply orb_false_iff in H4 as [A4 H4]. apply orb_false_iff in H5 as [A5 H5].
+  apply orb_false_iff in H4 as [A4 H4]. apply orb_false_iff in H5 as [A5 H5]. apply orb_false_iff in H8 as [A8 H8].
   assert (is_struct k = true -> ra = None -> cfg_differs dfc it = false /\ existsb (cfg_differs dfc) items = false) as H7'.
   { intros Hk Hr. specialize (H7 Hk Hr). cbn [existsb] in H7. apply orb_false_iff in H7. exact H7. }
   assert (is_struct k = true -> ra = None -> existsb (cfg_differs dfc) items = false) as H7t by (intros Hk Hr; apply (H7' Hk Hr)).
-  specialize (IH Hok H2 H3 H4 H5 H7t).
+  specialize (IH Hok H2 H3 H4 H5 H8 H7t).
   cbn [map emit_raw item_raw filter].
-  pose proof (item_rename_ok it Hit A4 A5) as Hrn.
+  pose proof (item_rename_ok it Hit A4 A5 A8) as Hrn.
   destruct (field_attrs (map group_string (it_attrs it))) as [rn sk] eqn:E. cbn [fst] in Hrn. subst rn.
   destruct (has_skip it) eqn:Hs.
   - unfold it_skip_beside in A3. rewrite Hs in A3. cbn [andb] in A3. apply negb_false_iff in A3.
@@ -75,9 +78,11 @@ Proof. induction items as [|it items IH]; intros Hok H2 H3 H4 H5 H7; [reflexivit
 (* every configured default_field_case *)
 Theorem names_correct_cfg dfc c : in_domain c = true -> kf_C06 c = false -> kf_config_case dfc c = false ->
   emitted_keys dfc c = serde_wire_names c.
-Proof. intros Hd Hk Hcfg. unfold emitted_keys, emitted_keys_raw, serde_wire_names. rewrite (struct_attrs_container c Hd).
+Proof. intros Hd Hk Hcfg. unfold emitted_keys, emitted_keys_raw, serde_wire_names.
   unfold kf_C06 in Hk. repeat (apply orb_false_iff in Hk as [Hk ?]).
+  rewrite (struct_attrs_container c Hd) by assumption.
   unfold in_domain in Hd. apply andb_true_iff in Hd as [Hd _]. apply andb_true_iff in Hd as [Hd _]. apply andb_true_iff in Hd as [Hitems _].
+  match goal with X : kf_sd_first c = false |- _ => unfold kf_sd_first in X; apply orb_false_iff in X as [_ Hsd] end.
   unfold kf_skip_text, kf_skip_beside, kf_rename_escape, kf_rename_text in *.
   apply emit_ok; try assumption.
   intros Hs Hr. unfold kf_config_case in Hcfg. rewrite Hs, Hr in Hcfg. exact Hcfg. Qed.
@@ -110,7 +115,7 @@ Proof. vm_compute. repeat split. Qed.
 
 (* ------------------------------------------------------------------ other attributes are inert *)
 Lemma first_rename_core l : first_rename (filter (fun m => negb (is_other m)) l) = first_rename l.
-Proof. induction l as [|m l IH]; [reflexivity|]. destruct m; cbn [filter is_other negb first_rename]; auto. Qed.
+Proof. induction l as [|m l IH]; [reflexivity|]. destruct m as [v|l0| |n o]; cbn [filter is_other negb first_rename]; auto. destruct (ser_of l0); auto. Qed.
 Lemma skip_core l : existsb is_mskip (filter (fun m => negb (is_other m)) l) = existsb is_mskip l.
 Proof. induction l as [|m l IH]; [reflexivity|]. destruct m; cbn [filter is_other negb existsb is_mskip]; auto. Qed.
 
@@ -186,3 +191,18 @@ Lemma other_attrs_inert_refuted :
   same_modulo_others w3' w3 /\ in_domain w3' = true /\ in_domain w3 = true /\ kf_C06 w3' = false /\
   emitted_keys default_field_case w3' <> emitted_keys default_field_case w3.
 Proof. split; [repeat split|]. split; [reflexivity|]. split; [reflexivity|]. split; [reflexivity|]. vm_compute. discriminate. Qed.
+
+(* C06-8 / C06-9 witnesses, and the other legal spellings outside them *)
+Definition w8 : container := {| c_kind := KStruct; c_attrs := [[CRenameAllP [(false, L "camelCase")]]];
+                                c_items := [it0 "user_id" []] |}.
+Definition w8i : container := {| c_kind := KStruct; c_attrs := [];
+                                 c_items := [it0 "a" [[MRenameP [(false, L "de_name"); (true, L "ser_name")]]]] |}.
+Definition w9 : container := {| c_kind := KEnum; c_attrs := [[CKV (L "rename_all_fields") (L "camelCase")]];
+                                c_items := [it0 "TaskStarted" []] |}.
+Lemma sd_first_refuted : refutes kf_sd_first w8 [L "userId"] /\ serde_wire_names w8 = [L "user_id"] /\
+  refutes kf_sd_first w8i [L "de_name"] /\ serde_wire_names w8i = [L "ser_name"].
+Proof. vm_compute. repeat split. Qed.
+Lemma rename_all_text_refuted : refutes kf_rename_all_text w9 [L "taskStarted"] /\ serde_wire_names w9 = [L "TaskStarted"].
+Proof. vm_compute. repeat split. Qed.
+Lemma variant_marker_is_variant sh : named_as_variant (variant_marker sh) = true.
+Proof. destruct sh; reflexivity. Qed.
